@@ -78,7 +78,7 @@ def run(cx):
             "also mutated in every applicable single way (%s) and validated plain, multi-error, operational; non-trivial = distinct "
             "(schema, instance, options)" % ", ".join(vg.MUTATIONS))
     rng = cx.sub_rng("schemas")
-    nsch = cx.n(40, 400)
+    nsch = cx.n(90, 700)
     per = cx.n(5, 24)
     schemas, cases = [], load_corpus(cx)
     for i in range(nsch):
